@@ -2272,6 +2272,9 @@ def text_method(I: Any, s: Term, name: str, args: List[Term], kwargs: Dict[str, 
             return c(r_)
         if isinstance(r_, (list, tuple)) and all(isinstance(x, str) for x in r_):
             return ("tuple", tuple(c(x) for x in r_)) if isinstance(r_, tuple) else ("clist", tuple(c(x) for x in r_))
+    if kind == "s" and name == "splitlines" and not args and not kwargs:
+        # the lines of a text: a list of texts of unknown length - EMPTY for the empty text (unlike split), so [0] may raise
+        return I.materialise(("sym", st.fresh("lines"), ("list", "str")), st)
     if kind in ("raw", "b") and name in ("cast", "tobytes", "toreadonly") and (name != "cast" or (len(args) == 1 and is_c(args[0]) and args[0][1] in ("B", "b", "c"))):
         return s            # (memoryview methods on a view of bytes: the same bytes)
     if kind in ("raw", "b") and name == "release" and not args:
